@@ -54,7 +54,7 @@ def step (s : St) (ws : List String) : St × String :=
   if !s.opened then (s, "bad-op") else
   let l := s.l
   match ws with
-  | ["get", a, k] => let (l', v) := getState l (parseAddr a) (tok k); ({ s with l := l' }, showB v)
+  | ["get", a, k] => let (l', v) := getState l (parseAddr a) (tok k); ({ s with l := l' }, if present v then showB v else "-")
   | ["set", a, k, v] => ({ s with l := setState l (parseAddr a) (tok k) (some (tok v)) }, "ok")
   | ["add", a, k, v] => ({ s with l := addState l (parseAddr a) (tok k) (some (tok v)) }, "ok")
   | ["del", a, k] => ({ s with l := setState l (parseAddr a) (tok k) none }, "ok")
